@@ -2567,7 +2567,7 @@ class x86_rm_reg_noarg(object):
         if p.v_opmode() == 64 or p.rex_p.value == 1:
             if not hasattr(p, 'sx') and (hasattr(p, 'w8') and p.w8.value == 0):
                 r = gpregs08_64
-            elif p.rex_r.value == 1:
+            elif self.getrexsize():
                 v |= 8
         self.expr = r.expr[v]
         return True
